@@ -252,7 +252,7 @@ func (st *State) loadScalar(s Sort, a *Term) *Term {
 // entered cannot point into regions allocated later: assume rg(v) <= 0 for
 // loads that resolve to an initial array.
 func (st *State) noteLoadedAddr(v *Term) {
-	if v.Op == "select" && v.Args[0].Op == "var" {
+	if v.Op == "select" && v.Args[0].Op == "var" && !v.bound {
 		st.Assume(IntCmp("<=", Rg(v), IntConst(0)))
 	}
 }
@@ -268,12 +268,17 @@ func (st *State) Load(t types.Type, a *Term) Value {
 	case KScalar:
 		return st.loadScalar(scalarSort(t), a)
 	case KSlice:
-		return &SliceV{
+		s := &SliceV{
 			Base: st.loadScalar(SAddr, FldAddr(a, 0)),
 			Off:  st.loadScalar(BV(64), FldAddr(a, 1)),
 			Len:  st.loadScalar(BV(64), FldAddr(a, 2)),
 			Cap:  st.loadScalar(BV(64), FldAddr(a, 3)),
 		}
+		// type invariant of every slice value stored in memory
+		if !(s.Len.IsConst() && s.Cap.IsConst() && s.Off.IsConst()) && !s.Base.bound && !s.Off.bound && !s.Len.bound && !s.Cap.bound {
+			st.Assume(validSlice(s))
+		}
+		return s
 	case KIface:
 		return &IfaceV{Tag: st.loadScalar(BV(32), FldAddr(a, 0)), Data: st.loadScalar(SAddr, FldAddr(a, 1))}
 	case KStruct:
@@ -474,6 +479,12 @@ func ValueEq(t types.Type, a, b Value) *Term {
 			cs = append(cs, ValueEq(ar.Elem(), x.Elems[i], y.Elems[i]))
 		}
 		return And(cs...)
+	}
+	if kindOf(t) == KFunc {
+		x, y := a.(*FuncV), b.(*FuncV)
+		if x.Sym != nil && y.Sym != nil {
+			return Eq(x.Sym, y.Sym)
+		}
 	}
 	panic("ValueEq: unsupported " + t.String())
 }
